@@ -187,6 +187,11 @@ RAW = {
     'other-sheet-unpopulated': {"'[b.xlsx]S'!A1": 2, "'[b.xlsx]S'!B1": "='[b.xlsx]T'!Z9+'[b.xlsx]S'!A1", "'[b.xlsx]S'!C1": "=ISBLANK('[b.xlsx]T'!Z9)"},
     'defined-names': {"'[b.xlsx]S'!A1": 2, "'[b.xlsx]S'!A2": 3, "'[b.xlsx]'!TOTAL": "=SUM('[b.xlsx]S'!A1:A2)", "'[b.xlsx]'!FIRST": "='[b.xlsx]S'!A1",
                       "'[b.xlsx]S'!B1": "='[b.xlsx]'!TOTAL*'[b.xlsx]'!FIRST", "'[b.xlsx]'!BOTH": "='[b.xlsx]S'!A1:A2", "'[b.xlsx]S'!B2": "=SUM('[b.xlsx]'!BOTH)"},
+    # ranges that overlap on unpopulated cells: which blanks become explicit nodes must not depend on the trip
+    'overlapping-sparse-ranges': {"'[b.xlsx]S'!A1": 1, "'[b.xlsx]S'!A2": 2, "'[b.xlsx]S'!B1": "=SUM('[b.xlsx]S'!A1:A3)", "'[b.xlsx]S'!B2": "=SUM('[b.xlsx]S'!A3:B3)",
+                                  "'[b.xlsx]S'!C1": "=SUM('[b.xlsx]S'!A1:B4)", "'[b.xlsx]S'!C2": "=COUNT('[b.xlsx]S'!A2:A6)+'[b.xlsx]S'!A5"},
+    'sparse-ranges-2': {"'[b.xlsx]S'!A1": 1, "'[b.xlsx]S'!C3": 2, "'[b.xlsx]S'!E1": "=SUM('[b.xlsx]S'!A1:C3)", "'[b.xlsx]S'!E2": "=SUM('[b.xlsx]S'!B2:D4)",
+                        "'[b.xlsx]S'!E3": "=SUM('[b.xlsx]S'!B1:B5)+'[b.xlsx]S'!B2", "'[b.xlsx]S'!E4": "=SUM('[b.xlsx]S'!A2:D2)"},
     'hex-and-arrays': {"'[b.xlsx]S'!A1": 255, "'[b.xlsx]S'!B1": "=DEC2HEX('[b.xlsx]S'!A1)", "'[b.xlsx]S'!C1:D2": "={1,2;3,4}*'[b.xlsx]S'!A1", "'[b.xlsx]S'!E1": "=SUM('[b.xlsx]S'!C1:D2)"},
 }
 
